@@ -32,7 +32,7 @@ def build(u):
         raise Undecided(f"lost anchor: impl ConfiguredPlugin with start resolves to {len(cs)} places")
     u.raw("impl<I, O> ConfiguredPlugin<I, O> {\n")
     u.slice(m, m.find_fn_in(cs[0], "start"), "cln_plugin::ConfiguredPlugin::start#io",
-            r"^let output = self\.output;", r"^let input = ",
+            r"^let output = self\.output;", r"^let input\s*=",
             "fn start__io(self) -> (r: (Arc<Mutex<FramedWrite<O, JsonCodec>>>, FramedRead<I, JsonRpcCodec>))",
             tail="(output, input)",
             note="slice start#io: the two statements that take the handshake's writer and reader out of the ConfiguredPlugin; `self` is an env mirror "
